@@ -1,4 +1,5 @@
 import JugModel.Props.C15
+import JugModel.Props.Memo
 #print axioms Jug.C15.classify_spec
 #print axioms Jug.C15.totals_add_up
 #print axioms Jug.C15.cached_eq_uncached
@@ -8,3 +9,7 @@ import JugModel.Props.C15
 #print axioms Jug.C15.check_iff
 #print axioms Jug.C15.classifier_table_matches
 #print axioms Jug.C15.graph_classifier_eq
+#print axioms Jug.MemoProps.memo_truthful
+#print axioms Jug.MemoProps.locked_answers_constant
+#print axioms Jug.MemoProps.failed_sticky
+#print axioms Jug.MemoProps.canLoad_truthful
